@@ -21,14 +21,18 @@ type Denotation struct {
 	// DefaultSpec: its schema entry is duplicated), "optional-attrs-in-empty-collection" (an empty block
 	// collection whose element type constraint has optional attributes).
 	Flags map[string]bool
+	// UnifyDyn: the element types of some block list / set unify to a type that still has dynamic parts
+	// (the elements then keep different types: go-cty's ListVal / SetVal panic on that — recorded finding)
+	UnifyDyn bool
 }
 
 type denoter struct {
-	err     bool
-	why     string
-	detail  string
-	inexact bool
-	flags   map[string]bool
+	err      bool
+	why      string
+	detail   string
+	inexact  bool
+	flags    map[string]bool
+	unifyDyn bool
 }
 
 func (d *denoter) fail(class, detail string) {
@@ -46,7 +50,7 @@ func Denote(n *SNode, b *Body, partial bool) Denotation {
 
 func (d *denoter) run(n *SNode, b *Body, partial bool) Denotation {
 	v := d.body(n, b, nil, partial)
-	return Denotation{Val: v, Err: d.err, Inexact: d.inexact, Why: d.why, Detail: d.detail, Flags: d.flags}
+	return Denotation{Val: v, Err: d.err, Inexact: d.inexact, Why: d.why, Detail: d.detail, Flags: d.flags, UnifyDyn: d.unifyDyn}
 }
 
 type content struct {
@@ -206,6 +210,9 @@ func (d *denoter) node(n *SNode, c *content, labels []string) cty.Value {
 			if uty == cty.NilType {
 				d.fail("inconsistent-element-types", n.Name)
 				return cty.DynamicVal
+			}
+			if uty.HasDynamicTypes() {
+				d.unifyDyn = true
 			}
 			for i := range vs {
 				if convs[i] != nil {
